@@ -13,7 +13,7 @@ RULE = ("single-thread libovni programs run through the rtdrv interpreter: proc_
         "ovni_payload_add calls totalling 0 or 2..16 bytes), jumbo-emit (size 0 .. beyond the buffer capacity, "
         "pattern data), flush, mark set/push/pop; libovni and driver built with ASan; 40% of the runs under an LD_PRELOAD shim that turns every write() into a real short write; half of the programs are boundary-targeted: a filler jumbo "
         "brings the 2 MiB buffer to MAX-d (d in 0..64, every residue of the thresholds) before 1-4 probe events of "
-        "every size class; ending flush, thread_free, proc_fini.  Oracle: stream.obs decoded by the independent "
+        "every size class; ending flush, thread_free, proc_fini; plus free-running programs of 2-8 threads with multi-MiB streams whose thread_free calls are released together by a barrier (OVNI_TMPDIR relocation running concurrently).  Oracle: stream.obs decoded by the independent "
         "codec = 8-byte header + exactly the emitted events, in call order, byte for byte (library-stamped mark "
         "clocks inside the call bracket), the only extra events being payload-less OF[ / OF] markers.  Emits the "
         "library refuses (too large) are valid outcomes.  Non-trivial = the program crossed the buffer boundary "
@@ -166,6 +166,56 @@ def run(case, ctx):
         ctx.rmdir(d)
 
 
+@st.composite
+def concurrent(draw):
+    """N threads with multi-MiB streams that are freed at the same moment in
+    OVNI_TMPDIR mode (the relocation to the final directory runs concurrently)."""
+    nth = draw(st.integers(2, 8))
+    threads = []
+    for t in range(nth):
+        ops = draw(st.lists(one_op(marks=False), min_size=1, max_size=6))
+        ops.append(["jumbo", "OB.", draw(clocks), draw(st.integers(300000, MAX - 100)), draw(st.integers(0, 255))])
+        ops += draw(st.lists(one_op(marks=False), min_size=0, max_size=4))
+        threads.append(ops)
+    return {"threads": threads, "tmpdir": draw(st.sampled_from([True, True, True, False]))}
+
+
+def run_concurrent(case, ctx):
+    lines = ["MODE free", "P init 1 %s 5" % rt.hx("node.1")]
+    for t, ops in enumerate(case["threads"]):
+        w = "T%d " % t
+        lines.append(w + "init %d" % (300 + t))
+        for op in ops:
+            if op[0] == "ev":
+                lines.append(w + "ev %s %s %s" % (rt.hx(op[1]), op[2], " ".join(op[3:])))
+            elif op[0] == "jumbo":
+                lines.append(w + "jumbo %s %s %d %d" % (rt.hx(op[1]), op[2], op[3], op[4]))
+            elif op[0] == "flush":
+                lines.append(w + "flush")
+        lines.append(w + "flush")
+        lines.append(w + "barrier")
+        lines.append(w + "free")
+    lines.append("P fini")
+    d = ctx.newdir()
+    try:
+        rr = rt.run_script(ctx.shared["rtdrv"], lines, d, tmpdir_mode=case["tmpdir"], cpu_s=120, wall_s=300)
+        if rr.res.kind != "ok":
+            raise Violation("driver did not finish: %s" % rr.res.brief())
+        for t in range(len(case["threads"])):
+            path = os.path.join(rr.tracedir, "loom.node.1", "proc.5", "thread.%d" % (300 + t), "stream.obs")
+            try:
+                dec = obs.decode_stream(open(path, "rb").read())
+            except (OSError, obs.DecodeError) as e:
+                raise Violation("thread %d: stream.obs missing or not following the trace spec after concurrent thread_free: %s" % (t, e))
+            prob = rt.match_stream(rt.expected_stream(lines, rr, "T%d" % t), dec)
+            if prob:
+                raise Violation("thread %d (of %d freed together, %s mode): %s" % (t, len(case["threads"]), "TMPDIR" if case["tmpdir"] else "direct", prob))
+        return {"nt": True, "cls": ["concurrent-free:%d" % len(case["threads"]), "tmpdir" if case["tmpdir"] else "direct"],
+                "sample": {"threads": len(case["threads"]), "tmpdir": case["tmpdir"], "first_lines": lines[:8]}}
+    finally:
+        ctx.rmdir(d)
+
+
 def enum_boundary(ctx):
     """Exhaustive sweep: fill level MAX-d for d in 0..40, every normal event size, buffer otherwise empty/non-empty."""
     sizes = [0] + list(range(2, 17))
@@ -188,7 +238,9 @@ def enum_boundary(ctx):
 
 
 def parts(tier):
-    ps = [Part("programs", run, strategy=lambda ctx: programs(), budget={"quick": 3000, "thorough": 60000})]
+    ps = [Part("programs", run, strategy=lambda ctx: programs(), budget={"quick": 3000, "thorough": 60000}),
+          Part("concurrent-free", run_concurrent, strategy=lambda ctx: concurrent(), budget={"quick": 160, "thorough": 3000},
+               replay_any=20)]
     if tier == "thorough":
         ps.append(Part("boundary-sweep", run, enum=enum_boundary, cap_s={"quick": 200, "thorough": 2000}))
     return ps
